@@ -363,8 +363,8 @@ Fixpoint sem_expr (fuel : nat) (s : sstate) (e : jexpr) {struct fuel} : sres (jv
         match l with
         | [] => SOk (acc, s)
         | (k, x) :: r =>
-          if mem k (keys acc) then SOff else
-          sdo a <- sem_expr f s x; let '(v, s1) := a in go s1 r (acc ++ [(k, v)])
+          (* a key written twice keeps its first position and gets the last value (ECMA-262 CreateDataProperty) *)
+          sdo a <- sem_expr f s x; let '(v, s1) := a in go s1 r (insert k v acc)
         end in
       sdo a <- go s kvs []; let '(props, s1) := a in
       let '(loc, h2) := jalloc (s_heap s1) (JObjO props) in SOk (JO loc, with_heap s1 h2)
